@@ -11,7 +11,14 @@ package proxymux
 //                    delayed (Accept return gate) while the last sub-listener closes and the
 //                    mux shuts down;
 //                 H3 the first byte arrives only after the sub-listener closed (and,
-//                    optionally, after a new mux took over the port).
+//                    optionally, after a new mux took over the port);
+//                 H6 a protocol is closed and registered again before the main loop has
+//                    processed the close (order forced through the mux's own mutex: the
+//                    harness holds it, the re-registration queues on it, then Close() wakes
+//                    the main loop which queues behind; goroutine states are read from
+//                    runtime.Stack, no sleeps): the new sub-listener must stay registered —
+//                    later connections of that protocol are delivered to it, its Accept
+//                    does not fail, the mux stays up (with and without the other protocol).
 //   mux-bytes     both handlers registered; connections with every first byte value 0..255,
 //                 payloads 0..64 KiB, client-side chunking incl. 1-byte writes, handler reads
 //                 with zero-length / 1-byte / random buffers: routing by first byte and exact
@@ -27,6 +34,7 @@ import (
 	"encoding/binary"
 	"fmt"
 	"net"
+	"runtime"
 	"strings"
 	"testing"
 	"testing/synctest"
@@ -66,6 +74,26 @@ func vfC18Settle(p *vfC18Port, handles []net.Listener, step func(string)) (vs []
 	return
 }
 
+// vfC18WaitParkedOnMutex polls (scheduler yields, no clock) until some goroutine whose
+// stack contains frame is blocked in sync.Mutex.Lock.
+func vfC18WaitParkedOnMutex(frame string) bool {
+	buf := make([]byte, 1<<20)
+	for i := 0; i < 20000; i++ {
+		n := runtime.Stack(buf, true)
+		for _, g := range strings.Split(string(buf[:n]), "\n\n") {
+			nl := strings.IndexByte(g, '\n')
+			if nl < 0 {
+				continue
+			}
+			if strings.Contains(g[:nl], "[sync.Mutex.Lock") && strings.Contains(g, frame) {
+				return true
+			}
+		}
+		runtime.Gosched()
+	}
+	return false
+}
+
 func vfC18LogHas(p *vfC18Port, kind, tag string) bool {
 	for _, e := range p.log.Snapshot() {
 		if e.Kind == kind && (tag == "" || e.Tag == tag) {
@@ -86,7 +114,7 @@ func TestVerifC18MuxHandover(t *testing.T) {
 		relist bool
 	}
 	var scens []scen
-	for _, name := range []string{"H1", "H2", "H3"} {
+	for _, name := range []string{"H1", "H2", "H3", "H6"} {
 		for _, kind := range []string{"socks", "http"} {
 			for _, other := range []bool{false, true} {
 				for _, plen := range []int{0, 1, 300, 70000} {
@@ -114,6 +142,7 @@ func TestVerifC18MuxHandover(t *testing.T) {
 				first = vfC18OtherBytes[si%len(vfC18OtherBytes)]
 				otherKind = "socks"
 			}
+			p.strictLiveness = sc.name == "H6"
 			var handles []net.Listener
 			ln, err := p.listen(sc.kind)
 			if err != nil {
@@ -161,6 +190,44 @@ func TestVerifC18MuxHandover(t *testing.T) {
 				}
 				base.releaseHold()
 				step("base.Accept() returns " + c2.name() + " to acceptLoop")
+			case "H6":
+				p.acceptor(sc.kind, ln)
+				c0 := p.connect(first, 2, nil, false)
+				synctest.Wait()
+				step(fmt.Sprintf("%s handler calls Accept; %s (first byte %#02x) delivered, so the main loop watches this sub-listener", sc.kind, c0.name(), first))
+				p.mu.Lock()
+				ml := p.ml
+				p.mu.Unlock()
+				var ln2 net.Listener
+				var err2 error
+				done := make(chan struct{})
+				ml.lock.Lock()
+				go func() {
+					ln2, err2 = p.listen(sc.kind) // queues on ml.lock
+					close(done)
+				}()
+				ok1 := vfC18WaitParkedOnMutex("proxymux.(*vfC18Port).listen")
+				_ = ln.Close()
+				ok2 := vfC18WaitParkedOnMutex("proxymux.(*muxListener).mainLoop")
+				ml.lock.Unlock()
+				<-done
+				synctest.Wait()
+				step("Close(" + sc.kind + " sub-listener) and Listen(" + sc.kind + ") again, the re-registration reaching the mux's mutex before the main loop does")
+				if !ok1 || !ok2 {
+					reached = false
+				}
+				if err2 != nil {
+					step("re-registration failed: " + err2.Error())
+					reached = false
+					break
+				}
+				p.acceptor(sc.kind, ln2)
+				handles = append(handles, ln2)
+				for i := 0; i < 3; i++ {
+					c := p.connect(first, sc.plen, nil, false)
+					step(fmt.Sprintf("%s connects, sends first byte %#02x + %d payload bytes", c.name(), first, sc.plen))
+					synctest.Wait()
+				}
 			case "H3":
 				p.acceptor(sc.kind, ln)
 				gate := make(chan struct{})
@@ -243,6 +310,7 @@ func TestVerifC18MuxBytes(t *testing.T) {
 			}
 			pattern[0] = []int{0, 1, 1, 2, 4096}[r.Intn(5)]
 			p.readSizes = func(i int) int { return pattern[i%len(pattern)] }
+			p.strictLiveness = true
 			hs, err1 := p.listen("socks")
 			hh, err2 := p.listen("http")
 			if err1 != nil || err2 != nil {
@@ -354,6 +422,7 @@ func TestVerifC18MuxE2E(t *testing.T) {
 			r := k.Rand(caseID)
 			withAuth := (b0/batch)%2 == 1
 			p := vfC18NewPort()
+			p.strictLiveness = true
 			log := p.log
 			hy := &vfC18HyClient{log: log}
 			hy.reply = func(addr string) ([]byte, bool) { return []byte("downstream:" + addr), false }
